@@ -13,6 +13,7 @@ import AdfObdd.AdfModel
     pq #a                      = paths … models … depth … deps […]   ~ sat … (truth-table spec)   ~ twin=1
     pjson                      serde round trip + fix_import; the object is replaced by the result
     prebuild                   string DTO + Bdd::from(nodes) + Adf::from((ordering, bdd, ac))
+    prebuildstream             the same from the node list WITHOUT the two constants (as streamed over a channel)
                                = T <node table> ac <handles> names <count>
                                ~ same-as-original nodes=1 ac=1 names=1 uniq=1 deps=1 cnt=1 memo-empty=1
     pmemocheck NV EXC <table> uniq=… ite=… res=… cnt=… deps=…   ~ ok    (audit of the real tables)
@@ -101,6 +102,14 @@ def persistStep (st : PersistSt) (l : String) (ws : List String) : Option (List 
   | ["prebuild"] =>
     let orig := liveObject st.b.s
     let r := rebuildP orig.st.nodes
+    some ([l, s!"= T {dumpTable r.st.nodes} ac {showNats "," st.ac} names {st.names}",
+           "= internal " ++ splitVerdict false (sameAsOriginal orig r),
+           "~ same-as-original " ++ splitVerdict true (sameAsOriginal orig r)], { st with b := { st.b with s := r.st } })
+  | ["prebuildstream"] =>
+    -- the node list as a channel delivers it (without the two constants): `Bdd::from` replays it
+    -- through `node` all the same
+    let orig := liveObject st.b.s
+    let r := rebuildPL (orig.st.nodes.toList.drop 2) PBdd.new
     some ([l, s!"= T {dumpTable r.st.nodes} ac {showNats "," st.ac} names {st.names}",
            "= internal " ++ splitVerdict false (sameAsOriginal orig r),
            "~ same-as-original " ++ splitVerdict true (sameAsOriginal orig r)], { st with b := { st.b with s := r.st } })
